@@ -32,6 +32,7 @@ def check(run):
     prog = run.prog
     from . import common as _common
     _common.fresh_hits(run, "C13")
+    _common.no_unsafe_cuts(run, "C13", "R0-no-cut", floor=3)
     A = sites.analysis(prog)
     B64 = rx.mask_of(GR.B64_ALPHABET)
     PAD = rx.mask_of(b"=")
